@@ -4,6 +4,7 @@ import (
 	"encoding/json"
 	"fmt"
 	"maps"
+	"regexp"
 	"strconv"
 	"strings"
 	gotemplate "text/template"
@@ -620,8 +621,12 @@ func createMainRewriteForFilters(pathModifier *dataplane.HTTPPathModifier, path 
 			filterPrefix = "/"
 		}
 
+		// the configured prefix is matched literally: characters that are special in a regular expression
+		// (a path may contain, for example, parentheses, dots, asterisks, plus and dollar signs) are escaped.
+		regexPath := regexp.QuoteMeta(path)
+
 		// capture everything following the configured prefix up to the first ?, if present.
-		regex := fmt.Sprintf("^%s([^?]*)?", path)
+		regex := fmt.Sprintf("^%s([^?]*)?", regexPath)
 		// replace the configured prefix with the filter prefix, append the captured segment,
 		// and include the request arguments stored in nginx variable $args.
 		// https://nginx.org/en/docs/http/ngx_http_core_module.html#var_args
@@ -631,7 +636,7 @@ func createMainRewriteForFilters(pathModifier *dataplane.HTTPPathModifier, path 
 		// then make sure that we *require* but *don't capture* a trailing slash in the request,
 		// otherwise we'll get duplicate slashes in the full replacement
 		if strings.HasSuffix(filterPrefix, "/") && !strings.HasSuffix(path, "/") {
-			regex = fmt.Sprintf("^%s(?:/([^?]*))?", path)
+			regex = fmt.Sprintf("^%s(?:/([^?]*))?", regexPath)
 		}
 
 		// if configured prefix ends in / we won't capture it for a request (since it's not in the regex),
